@@ -217,7 +217,7 @@ class KModel(Model):
 
     def zip_for_each(self, z, clo, e):
         args = [self.lane_arg(p, e) for p in z.d['parts']]
-        self.events.append(('zip_for_each', len(args)))
+        self.events.append(('zip_for_each', [(p.kind, str(p.d.get('r', p.d.get('label', '')))) for p in z.d['parts']], len(self.writes)))
         self.interp.apply(clo, args, e)
         return Unit()
 
